@@ -1290,6 +1290,12 @@ Build(c, st, v) ==
     [] c = "CSV" -> CSVBuild(st, v)          [] c \in ExchangeFormats -> GridFmtBuild(st, v)
 
 FileW(c, o) == IF c = "CSV" THEN W_CSVLines(o) ELSE IF c \in ExchangeFormats THEN <<>> ELSE FileOf(Tag(c), WriteOps(c, o))
+\* kinds of fields of the file of an instance (C09 chooses valid files that hold every kind that the class has)
+FieldKinds(c, o) ==
+  IF c \in ExchangeFormats \cup {"CSV", "Raw"} THEN {}
+  ELSE LET ops == WriteOps(c, o) IN
+       UNION {{ops[k].r[q].k : q \in DOMAIN ops[k].r} : k \in DOMAIN ops}
+       \cup (IF \E k \in DOMAIN ops : ops[k].w = "vec" /\ Len(ops[k].v) > 0 THEN {"vecrow"} ELSE {})
 \* the roles of the tokens of FileW(c, o), in the same layout (<<>>: no field of the format has a declared domain)
 RolesW(c, o) == IF c \in ExchangeFormats \cup {"CSV", "Raw"} THEN <<>> ELSE RolesOf(Tag(c), WriteOps(c, o))
 \* createFromNF: header check, then the class reader
@@ -1420,6 +1426,8 @@ PathCases == [k \in 1..12 |-> LET set == [container |-> ((k - 1) \div 6) = 1, pr
 (*                 the specification gives to its field (role of the token):   *)
 (*                 count n -> n-1, n+1; enumeration / flag lo..hi -> hi+1,     *)
 (*                 hi+2, lo-1; rank lo..hi -> hi+1, lo-1                       *)
+(*   duptok(k)     token k written twice (one value too many on its line /     *)
+(*                 in its record; every line, the LAST one included)           *)
 (* Tokens are numbered 1..N over the whole file (the tag is token 1).         *)
 
 NTok(L) == LET F[i \in 0..Len(L)] == IF i = 0 THEN 0 ELSE F[i-1] + Len(L[i]) IN F[Len(L)]
@@ -1440,6 +1448,9 @@ ApplyFault(L, ft) ==
     [] ft.kind = "emptyline" ->
          LET p == TokPos(L, ft.k)  ln == L[p[1]] IN
          SubSeq(L, 1, p[1] - 1) \o << SubSeq(ln, 1, p[2] - 1), <<>>, SubSeq(ln, p[2] + 1, Len(ln)) >> \o SubSeq(L, p[1] + 1, Len(L))
+    [] ft.kind = "duptok" ->
+         LET p == TokPos(L, ft.k)  ln == L[p[1]] IN
+         [L EXCEPT ![p[1]] = SubSeq(ln, 1, p[2]) \o <<ln[p[2]]>> \o SubSeq(ln, p[2] + 1, Len(ln))]
     [] ft.kind = "wrongclass" -> [L EXCEPT ![1] = <<ft.t>>]
     [] ft.kind = "tagonly" -> <<L[1]>>
     [] ft.kind = "dupline"  -> SubSeq(L, 1, ft.k) \o <<L[ft.k]>> \o SubSeq(L, ft.k + 1, Len(L))
@@ -1453,8 +1464,10 @@ BoundInts(r) == CASE r.k = "count" -> <<r.lo - 1, r.lo + 1>>
 NBoundSlots == 3
 \* the faults of a file, numbered 1..NFaults(L, RL): truncations, corruptions (8 replacement tokens per token; a replacement
 \* by the same token is the fault "noop"), empty lines, 2 wrong class tags, duplicated lines, dropped lines, the first line
-\* alone, boundary replacements (3 slots per token; RL: roles of the tokens, <<>> when the format declares none)
-NFaults(L, RL) == 10 * (NTok(L) - 1) + 2 + 2 * (Len(L) - 1) + 1 + (IF RL = <<>> THEN 0 ELSE NBoundSlots * (NTok(L) - 1))
+\* alone, boundary replacements (3 slots per token; RL: roles of the tokens, <<>> when the format declares none), every
+\* token written twice (a comment mark written twice changes nothing: "noop")
+NBoundFaults(L, RL) == IF RL = <<>> THEN 0 ELSE NBoundSlots * (NTok(L) - 1)
+NFaults(L, RL) == 10 * (NTok(L) - 1) + 2 + 2 * (Len(L) - 1) + 1 + NBoundFaults(L, RL) + (NTok(L) - 1)
 FaultAt(L, RL, c, j) ==
   LET n1 == NTok(L) - 1
       nl == Len(L) - 1
@@ -1471,6 +1484,9 @@ FaultAt(L, RL, c, j) ==
      ELSE IF j <= 10 * n1 + 2 + nl THEN [kind |-> "dupline", k |-> j - (10 * n1 + 2) + 1, t |-> ""]
      ELSE IF j <= 10 * n1 + 2 + 2 * nl THEN [kind |-> "dropline", k |-> j - (10 * n1 + 2 + nl) + 1, t |-> ""]
      ELSE IF j = nb THEN [kind |-> "tagonly", k |-> 1, t |-> ""]                      \* the first line alone, with its end of line
+     ELSE IF j > nb + NBoundFaults(L, RL) THEN
+          LET k == j - nb - NBoundFaults(L, RL) + 1
+          IN [kind |-> IF IsComment(TokAt(L, k)) THEN "noop" ELSE "duptok", k |-> k, t |-> ""]
      ELSE LET idx  == j - nb - 1
               k    == (idx \div NBoundSlots) + 2
               slot == (idx % NBoundSlots) + 1
